@@ -302,6 +302,16 @@ def voc_c():
     return V, {}, {}
 
 
+def voc_cfast():
+    """pixman-fast-path.c: the opaque combine32.h primitives plus the format converters (bit layout decided by C02-R6/C10)"""
+    V, A, PR = voc_c()
+    V['convert_8888_to_0565'] = V['convert_0565_to_0888'] = V['convert_8888_to_8888'] = V['convert_x888_to_8888'] = lambda ex, c, a: ex.val(a[0])
+    V['convert_0565_to_8888'] = lambda ex, c, a: ex.opaque(ex.val(a[0]))
+    V['fetch_24'] = lambda ex, c, a: ex.load_ptr(ex.val(a[0]))
+    V['store_24'] = lambda ex, c, a: ex.store_ptr(ex.val(a[0]), ex.val(a[1]))
+    return V, A, PR
+
+
 class Exec:
     """path-wise symbolic execution of one function; internal non-vocabulary callees are executed recursively"""
 
@@ -547,6 +557,8 @@ class Exec:
             env[x.i] = v; return
         if op == 'and':
             a, b = self.val(x.a[0]), self.val(x.a[1])
+            if getattr(self, 'mask_bits', False) and ((a == M) != (b == M)):
+                env[x.i] = M; return                  # 1-bpp mask: `word & bitmask` is the mask value of the pixel
             env[x.i] = a if (_is_expr(a) and _is_expr(b) and sympy.expand(a - b) == 0) else None; return
         if op == 'shl' and x.a[1][0] == 'c' and int(x.a[1][1]) in (8, 16, 24, 32, 48):
             env[x.i] = self.val(x.a[0]); return            # replication of an 8-bit alpha into another channel
@@ -730,6 +742,9 @@ class Exec:
                 return ('assume', sub, {}) if pred == 'ne' else ('assume', {}, sub)
             if _is_expr(l) and _is_expr(r) and r.is_Integer and l.free_symbols:
                 k = int(r)
+                if k == 0 and l == M and getattr(self, 'mask_bits', False) and pred in ('eq', 'ne'):
+                    z, o = _zero_subs(M), _one_subs(M)          # a 1-bpp mask value is 0 or 1
+                    return ('assume', z, o) if pred == 'eq' else ('assume', o, z)
                 if k == 0:
                     sub = _zero_subs(l)
                 elif k in (0xff, 255):
@@ -793,6 +808,31 @@ def _pred_subs(kind, v):
     if kind == 'transparent':
         return _gens(alpha(v))
     return None
+
+
+def _saturated(got, want, assum):
+    """Sums saturate at 1.  Under the assumptions of the form sym = 1 / sym = 0, the written value is exactly 1 and the required value
+    is 1 + (a polynomial with non-negative coefficients in quantities of [0,1]): the stored pixels agree."""
+    sub1 = {}
+    for g in assum:
+        g = sympy.expand(g)
+        fs = list(g.free_symbols)
+        if len(fs) == 1 and g == fs[0]:
+            sub1[fs[0]] = 0
+        elif len(fs) == 1 and g == fs[0] - 1:
+            sub1[fs[0]] = 1
+    if not sub1:
+        return False
+    g1 = sympy.expand(sympy.sympify(got).subs(sub1)); w1 = sympy.expand(sympy.sympify(want).subs(sub1))
+    if g1 != 1:
+        return False
+    d = sympy.expand(w1 - 1)
+    if d == 0:
+        return True
+    if not d.free_symbols:
+        return d >= 0
+    poly = sympy.Poly(d, *sorted(d.free_symbols, key=str))
+    return all(c >= 0 for c in poly.coeffs())
 
 
 def vanishes(diff, assum):
@@ -1036,13 +1076,13 @@ C_PRIMS = {
 }
 
 
-def derive_combine32(P):
-    """scratch copy of the current pixman-combine32.c next to a derived pixman-combine32.h whose pixel primitives are opaque calls"""
+def derive_combine32(P, cname='pixman-combine32.c'):
+    """scratch copy of the current <cname> next to a derived pixman-combine32.h whose pixel primitives are opaque calls"""
     import os, re, hashlib
     from .. import build, facts as _facts
     R = build.repo()
     hdr = open(os.path.join(R, 'pixman', 'pixman-combine32.h')).read()
-    src = open(os.path.join(R, 'pixman', 'pixman-combine32.c')).read()
+    src = open(os.path.join(R, 'pixman', cname)).read()
     lines = hdr.split('\n'); out = []; i = 0; replaced = set()
     decl = []
     for nm, (fn, ar) in C_PRIMS.items():
@@ -1069,11 +1109,11 @@ def derive_combine32(P):
     d = os.path.join(build.cache_dir(), 'gen', 'c32-' + key); os.makedirs(d, exist_ok=True)
     with open(os.path.join(d, 'pixman-combine32.h'), 'w') as f:
         f.write(text_h)
-    with open(os.path.join(d, 'pixman-combine32.c'), 'w') as f:
+    with open(os.path.join(d, cname), 'w') as f:
         f.write(src)
-    p = build.shim_facts(os.path.join(d, 'pixman-combine32.c'), mode='A', flags=['-DHAVE_CONFIG_H'], loops=True)
+    p = build.shim_facts(os.path.join(d, cname), mode='A', flags=['-DHAVE_CONFIG_H'], loops=True)
     import json
-    S_ = _facts.Program({'pixman-combine32.c(derived)': p})
+    S_ = _facts.Program({cname + '(derived)': p})
     u = list(S_.units.values())[0]
     loops = {fd['name']: fd.get('loops', []) for fd in json.load(open(p))['functions']}
     return S_, u, loops
@@ -1199,7 +1239,8 @@ class RExec(Exec):
 
 
 def r10_composite_bodies(ck, P):
-    R = ck.rule('C02-R10', 'composite fast-path routines whose bodies are written in the helper vocabulary compute the Porter-Duff result of the operator/opacity of every table entry they are registered for (shortcut branches included)', floor=60)
+    P0 = P
+    R = ck.rule('C02-R10', 'composite fast-path routines whose bodies are written in the helper vocabulary compute the Porter-Duff result of the operator/opacity of every table entry they are registered for (shortcut branches included)', floor=85)
     from . import tables
     C = __import__('pxv.consts', fromlist=['x']).fast_path_flags()
     ops, N = algebra.operators(P)
@@ -1209,10 +1250,16 @@ def r10_composite_bodies(ck, P):
     analysed = 0; skipped = defaultdict(int); skipped_fns = {}
     done = {}
     for u, g, t in tables.composite_tables(P):
-        if u.name not in ('pixman-mmx.c', 'pixman-sse2.c'):
+        if u.name not in ('pixman-mmx.c', 'pixman-sse2.c', 'pixman-fast-path.c'):
             continue
-        voc = voc_sse2() if u.name == 'pixman-sse2.c' else voc_mmx()
-        loops = _loops_of(u)
+        if u.name == 'pixman-fast-path.c':
+            # the portable C fast paths: executed over the derived header that makes the UN8x4_* primitives opaque
+            P, u, loops = derive_combine32(P0, 'pixman-fast-path.c')
+            voc = voc_cfast()
+        else:
+            P = P0
+            voc = voc_sse2() if u.name == 'pixman-sse2.c' else voc_mmx()
+            loops = _loops_of(u)
         comb_ops = {}
         for (un2, creator, slot), m2 in algebra.slot_stores(P).items():
             if un2 == u.name and slot in ('combine_32', 'combine_32_ca'):
@@ -1271,8 +1318,10 @@ def r10_composite_bodies(ck, P):
                 for L in ls:
                     ex = RExec(P, u, voc, has_mask); ex.loop_header = None; ex.combiner_ops = comb_ops; ex.base = base
                     ex.solid_syms = ({S, SA} if e['src_format'] == solid else set()) | ({M, MA} if msk_fmt == solid else set())
+                    ex.mask_bits = has_mask and msk_fmt not in (solid, null) and tables.fmt_info(msk_fmt)['bpp'] == 1
                     pre = ex.prefix_states(f, [None, None], L['header'])
-                    ex = RExec(P, u, voc, has_mask); ex.loop_header = L['header']; ex.combiner_ops = comb_ops; ex.base = base
+                    mb = ex.mask_bits
+                    ex = RExec(P, u, voc, has_mask); ex.loop_header = L['header']; ex.combiner_ops = comb_ops; ex.base = base; ex.mask_bits = mb
                     ex.init_states = pre
                     res = ex.run_paths(f, [None, None], region=set(L['blocks']), start=L['header'])
                     wrote = False
@@ -1284,17 +1333,17 @@ def r10_composite_bodies(ck, P):
                             sub = dict(base); sub.update(assum); sub.update(a2)
                             if got is None or not _is_expr(got):
                                 raise Unknown('a value written is not expressible in the helper vocabulary')
-                            diff = sympy.expand(got - Es)
                             if proj:
-                                chans = [diff.subs(proj, simultaneous=True)]
+                                ch = [proj]
                             elif dst_noalpha:
-                                chans = [diff.subs(ACH, 0)]                       # the x bits of the destination are not observable
+                                ch = [{ACH: 0}]                                   # the x bits of the destination are not observable
                             else:
-                                chans = [diff.subs(ACH, 0), diff.subs(ALPHA, simultaneous=True)]
-                            if not all(vanishes(c_, sub) for c_ in chans):
+                                ch = [{ACH: 0}, ALPHA]
+                            pairs = [(sympy.expand(got).subs(c_, simultaneous=True), sympy.expand(Es).subs(c_, simultaneous=True)) for c_ in ch]
+                            if not all(vanishes(g_ - w_, sub) or _saturated(g_, w_, sub) for g_, w_ in pairs):
                                 if notes or n2:
                                     raise Unknown('shortcut under a condition the rule does not interpret')
-                                probs.append('%s (loop at block %s) writes %s%s; %s%s requires %s' % (fn, L['header'], got, (' when ' + _asm(sub)) if sub else '', opname, ' with a unified mask' if has_mask and not ca else '', Es))
+                                probs.append('%s (loop at block %s) writes %s%s; %s%s requires %s' % (fn, L['header'], got, (' when ' + _asm(sub)) if sub else '', opname, ' with a unified mask' if has_mask and not ca else '', '%s in the colour channels%s' % (sympy.expand(Es.subs(ACH, 0)), '' if dst_noalpha else ' and %s in alpha' % sympy.expand(Es.subs(ALPHA, simultaneous=True))) if Es.has(ACH) else Es))
                     if wrote:
                         nloops += 1
                 if nloops == 0:
